@@ -98,6 +98,7 @@ type alphabets struct {
 	reduced []Answer // one representative per class, initial broadcast
 	extra   []Answer // full minus reduced
 	tiny    []Answer // accept and one rejecting representative
+	accept  []Answer // accept only
 	resend  []Answer // classes for a rebroadcast position
 	nRPC    int
 	nVar    int
@@ -141,6 +142,7 @@ func buildAlphabets() *alphabets {
 	a.reduced = []Answer{acc, inm, kn, cf, rep, opq, nfy, nfc}
 	a.resend = []Answer{acc, inm, kn, cf, rep, opq}
 	a.tiny = []Answer{acc, rep}
+	a.accept = []Answer{acc}
 	in := map[string]bool{}
 	for _, e := range a.reduced {
 		in[e.Name] = true
